@@ -21,6 +21,7 @@ import (
 	"github.com/nspcc-dev/neo-go/pkg/core/block"
 	"github.com/nspcc-dev/neo-go/pkg/core/native/nativehashes"
 	"github.com/nspcc-dev/neo-go/pkg/core/transaction"
+	"github.com/nspcc-dev/neo-go/pkg/encoding/bigint"
 	"github.com/nspcc-dev/neo-go/pkg/neotest"
 	"github.com/nspcc-dev/neo-go/pkg/util"
 
@@ -78,14 +79,34 @@ func (c *stateCtx) viewOf(n *chainx.Node, hist []*block.Block) (*chainView, erro
 			cv.Blocked[a] = true
 		}
 	}
+	c.fillPolicy(n, cv)
 	return cv, nil
+}
+
+// fillPolicy reads attribute fees from Policy storage (prefix 20 + type) and
+// notes which instances of U are deployed.
+func (c *stateCtx) fillPolicy(n *chainx.Node, cv *chainView) {
+	cv.AttrFee = map[transaction.AttrType]int64{}
+	for k, v := range n.StorageDump([]int32{-7}) {
+		kb, _ := hex.DecodeString(strings.TrimPrefix(k, "-7:"))
+		if len(kb) == 2 && kb[0] == 20 {
+			vb, _ := hex.DecodeString(v)
+			cv.AttrFee[transaction.AttrType(kb[1])] = bigint.FromBytes(vb).Int64()
+		}
+	}
+	cv.Contracts = map[util.Uint160]bool{}
+	for _, h := range c.sc.World.Hashes() {
+		if n.BC.GetContractState(h) != nil {
+			cv.Contracts[h] = true
+		}
+	}
 }
 
 type phSpec struct {
 	name string
 	// make returns the transaction to pool and the transactions of block N,
 	// built on the scratch replica n at state S (tip = N-1).
-	make func(c *stateCtx, n *chainx.Node, mk phMaker) (t *transaction.Transaction, blockN []*transaction.Transaction, err error)
+	make func(c *stateCtx, n *chainx.Node, mk phMaker, w *chainx.World) (t *transaction.Transaction, blockN []*transaction.Transaction, err error)
 }
 
 // phMaker builds a transaction of account a with the exact minimal network
@@ -108,7 +129,7 @@ func phSpecs() []phSpec {
 		return []*transaction.Transaction{t}, err
 	}
 	return []phSpec{
-		{"expired(valid-until=N)", func(c *stateCtx, n *chainx.Node, mk phMaker) (*transaction.Transaction, []*transaction.Transaction, error) {
+		{"expired(valid-until=N)", func(c *stateCtx, n *chainx.Node, mk phMaker, w *chainx.World) (*transaction.Transaction, []*transaction.Transaction, error) {
 			tip := n.Height()
 			t, err := mk(4, transferScript(4, 1, 1), func(t *transaction.Transaction) { t.ValidUntilBlock = tip + 1 })
 			if err != nil {
@@ -117,7 +138,7 @@ func phSpecs() []phSpec {
 			bn, err := filler(mk)
 			return t, bn, err
 		}},
-		{"valid-until=N+1(still-valid)", func(c *stateCtx, n *chainx.Node, mk phMaker) (*transaction.Transaction, []*transaction.Transaction, error) {
+		{"valid-until=N+1(still-valid)", func(c *stateCtx, n *chainx.Node, mk phMaker, w *chainx.World) (*transaction.Transaction, []*transaction.Transaction, error) {
 			tip := n.Height()
 			t, err := mk(4, transferScript(4, 1, 1), func(t *transaction.Transaction) { t.ValidUntilBlock = tip + 2 })
 			if err != nil {
@@ -126,7 +147,7 @@ func phSpecs() []phSpec {
 			bn, err := filler(mk)
 			return t, bn, err
 		}},
-		{"unaffected(still-valid)", func(c *stateCtx, n *chainx.Node, mk phMaker) (*transaction.Transaction, []*transaction.Transaction, error) {
+		{"unaffected(still-valid)", func(c *stateCtx, n *chainx.Node, mk phMaker, w *chainx.World) (*transaction.Transaction, []*transaction.Transaction, error) {
 			t, err := mk(4, transferScript(4, 1, 1), nil)
 			if err != nil {
 				return nil, nil, err
@@ -134,11 +155,11 @@ func phSpecs() []phSpec {
 			bn, err := filler(mk)
 			return t, bn, err
 		}},
-		{"already-on-chain(in-block-N)", func(c *stateCtx, n *chainx.Node, mk phMaker) (*transaction.Transaction, []*transaction.Transaction, error) {
+		{"already-on-chain(in-block-N)", func(c *stateCtx, n *chainx.Node, mk phMaker, w *chainx.World) (*transaction.Transaction, []*transaction.Transaction, error) {
 			t, err := mk(4, transferScript(4, 1, 1), nil)
 			return t, []*transaction.Transaction{t}, err
 		}},
-		{"its-Conflicts-attribute-names-a-tx-of-block-N", func(c *stateCtx, n *chainx.Node, mk phMaker) (*transaction.Transaction, []*transaction.Transaction, error) {
+		{"its-Conflicts-attribute-names-a-tx-of-block-N", func(c *stateCtx, n *chainx.Node, mk phMaker, w *chainx.World) (*transaction.Transaction, []*transaction.Transaction, error) {
 			u, err := mk(4, transferScript(4, 1, 2), nil)
 			if err != nil {
 				return nil, nil, err
@@ -146,21 +167,21 @@ func phSpecs() []phSpec {
 			t, err := mk(4, transferScript(4, 1, 1), func(t *transaction.Transaction) { t.Attributes = append(t.Attributes, conflictsAttr(u.Hash())) })
 			return t, []*transaction.Transaction{u}, err
 		}},
-		{"named-by-Conflicts-of-a-tx-of-block-N(same-signer)", func(c *stateCtx, n *chainx.Node, mk phMaker) (*transaction.Transaction, []*transaction.Transaction, error) {
+		{"named-by-Conflicts-of-a-tx-of-block-N(same-signer)", func(c *stateCtx, n *chainx.Node, mk phMaker, w *chainx.World) (*transaction.Transaction, []*transaction.Transaction, error) {
 			t, err := mk(5, transferScript(5, 1, 1), nil)
 			if err != nil {
 				return nil, nil, err
 			}
 			return t, nil, nil
 		}},
-		{"named-by-Conflicts-of-a-tx-of-block-N(other-signer,still-valid)", func(c *stateCtx, n *chainx.Node, mk phMaker) (*transaction.Transaction, []*transaction.Transaction, error) {
+		{"named-by-Conflicts-of-a-tx-of-block-N(other-signer,still-valid)", func(c *stateCtx, n *chainx.Node, mk phMaker, w *chainx.World) (*transaction.Transaction, []*transaction.Transaction, error) {
 			t, err := mk(5, transferScript(5, 1, 1), nil)
 			if err != nil {
 				return nil, nil, err
 			}
 			return t, nil, nil
 		}},
-		{"balance-spent-in-block-N", func(c *stateCtx, n *chainx.Node, mk phMaker) (*transaction.Transaction, []*transaction.Transaction, error) {
+		{"balance-spent-in-block-N", func(c *stateCtx, n *chainx.Node, mk phMaker, w *chainx.World) (*transaction.Transaction, []*transaction.Transaction, error) {
 			bal := c.cv.Balance[chainx.Acc(6).ScriptHash()]
 			t, err := mk(6, transferScript(6, 1, 1), nil)
 			if err != nil {
@@ -173,7 +194,7 @@ func phSpecs() []phSpec {
 			u = signTx(u, 6, c.magic) // spends the same once more: fees of T no longer covered
 			return t, []*transaction.Transaction{u}, nil
 		}},
-		{"balance-exactly-left-after-block-N(still-valid)", func(c *stateCtx, n *chainx.Node, mk phMaker) (*transaction.Transaction, []*transaction.Transaction, error) {
+		{"balance-exactly-left-after-block-N(still-valid)", func(c *stateCtx, n *chainx.Node, mk phMaker, w *chainx.World) (*transaction.Transaction, []*transaction.Transaction, error) {
 			bal := c.cv.Balance[chainx.Acc(6).ScriptHash()]
 			t, err := mk(6, transferScript(6, 6, 1), nil)
 			if err != nil {
@@ -188,7 +209,7 @@ func phSpecs() []phSpec {
 			u = signTx(u, 6, c.magic)
 			return t, []*transaction.Transaction{u}, nil
 		}},
-		{"signer-blocked-in-block-N", func(c *stateCtx, n *chainx.Node, mk phMaker) (*transaction.Transaction, []*transaction.Transaction, error) {
+		{"signer-blocked-in-block-N", func(c *stateCtx, n *chainx.Node, mk phMaker, w *chainx.World) (*transaction.Transaction, []*transaction.Transaction, error) {
 			if c.cv.Blocked[chainx.Acc(5).ScriptHash()] {
 				return nil, nil, fmt.Errorf("already blocked")
 			}
@@ -199,7 +220,7 @@ func phSpecs() []phSpec {
 			bn, err := one(committee(n, "blockAccount", chainx.Acc(5).ScriptHash()))
 			return t, bn, err
 		}},
-		{"fee-per-byte-raised-in-block-N", func(c *stateCtx, n *chainx.Node, mk phMaker) (*transaction.Transaction, []*transaction.Transaction, error) {
+		{"fee-per-byte-raised-in-block-N", func(c *stateCtx, n *chainx.Node, mk phMaker, w *chainx.World) (*transaction.Transaction, []*transaction.Transaction, error) {
 			t, err := mk(4, transferScript(4, 1, 1), nil)
 			if err != nil {
 				return nil, nil, err
@@ -207,7 +228,7 @@ func phSpecs() []phSpec {
 			bn, err := one(committee(n, "setFeePerByte", n.BC.FeePerByte()+100))
 			return t, bn, err
 		}},
-		{"fee-per-byte-raised-in-block-N(fee-still-sufficient)", func(c *stateCtx, n *chainx.Node, mk phMaker) (*transaction.Transaction, []*transaction.Transaction, error) {
+		{"fee-per-byte-raised-in-block-N(fee-still-sufficient)", func(c *stateCtx, n *chainx.Node, mk phMaker, w *chainx.World) (*transaction.Transaction, []*transaction.Transaction, error) {
 			t, err := mk(4, transferScript(4, 1, 1), func(t *transaction.Transaction) { t.NetworkFee = 100000 })
 			if err != nil {
 				return nil, nil, err
@@ -215,7 +236,7 @@ func phSpecs() []phSpec {
 			bn, err := one(committee(n, "setFeePerByte", n.BC.FeePerByte()+100))
 			return t, bn, err
 		}},
-		{"exec-fee-factor-raised-in-block-N", func(c *stateCtx, n *chainx.Node, mk phMaker) (*transaction.Transaction, []*transaction.Transaction, error) {
+		{"exec-fee-factor-raised-in-block-N", func(c *stateCtx, n *chainx.Node, mk phMaker, w *chainx.World) (*transaction.Transaction, []*transaction.Transaction, error) {
 			t, err := mk(4, transferScript(4, 1, 1), nil)
 			if err != nil {
 				return nil, nil, err
@@ -228,7 +249,84 @@ func phSpecs() []phSpec {
 			bn, err := one(committee(n, "setExecFeeFactor", f*2))
 			return t, bn, err
 		}},
+		{"attribute-fee-raised-in-block-N(Conflicts)", func(c *stateCtx, n *chainx.Node, mk phMaker, w *chainx.World) (*transaction.Transaction, []*transaction.Transaction, error) {
+			t, err := mk(4, transferScript(4, 1, 1), func(t *transaction.Transaction) { t.Attributes = append(t.Attributes, conflictsAttr(util.Uint256{0xC0, 6})) })
+			if err != nil {
+				return nil, nil, err
+			}
+			bn, err := one(committee(n, "setAttributeFee", int64(transaction.ConflictsT), c.cv.AttrFee[transaction.ConflictsT]+1000000))
+			return t, bn, err
+		}},
+		{"attribute-fee-raised-in-block-N(NotValidBefore)", func(c *stateCtx, n *chainx.Node, mk phMaker, w *chainx.World) (*transaction.Transaction, []*transaction.Transaction, error) {
+			tip := n.Height()
+			t, err := mk(4, transferScript(4, 1, 1), func(t *transaction.Transaction) { t.Attributes = append(t.Attributes, nvbAttr(tip)) })
+			if err != nil {
+				return nil, nil, err
+			}
+			bn, err := one(committee(n, "setAttributeFee", int64(transaction.NotValidBeforeT), c.cv.AttrFee[transaction.NotValidBeforeT]+1000000))
+			return t, bn, err
+		}},
+		{"attribute-fee-raised-in-block-N(fee-still-sufficient)", func(c *stateCtx, n *chainx.Node, mk phMaker, w *chainx.World) (*transaction.Transaction, []*transaction.Transaction, error) {
+			t, err := mk(4, transferScript(4, 1, 1), func(t *transaction.Transaction) {
+				t.Attributes = append(t.Attributes, conflictsAttr(util.Uint256{0xC0, 6}))
+				t.NetworkFee = 1000000
+			})
+			if err != nil {
+				return nil, nil, err
+			}
+			bn, err := one(committee(n, "setAttributeFee", int64(transaction.ConflictsT), c.cv.AttrFee[transaction.ConflictsT]+1000000))
+			return t, bn, err
+		}},
+		{"max-valid-until-increment-lowered-in-block-N", func(c *stateCtx, n *chainx.Node, mk phMaker, w *chainx.World) (*transaction.Transaction, []*transaction.Transaction, error) {
+			tip := n.Height()
+			t, err := mk(4, transferScript(4, 1, 1), func(t *transaction.Transaction) { t.ValidUntilBlock = tip + 50 })
+			if err != nil {
+				return nil, nil, err
+			}
+			bn, err := one(committee(n, "setMaxValidUntilBlockIncrement", int64(4)))
+			return t, bn, err
+		}},
+		{"max-valid-until-increment-lowered-in-block-N(still-within)", func(c *stateCtx, n *chainx.Node, mk phMaker, w *chainx.World) (*transaction.Transaction, []*transaction.Transaction, error) {
+			tip := n.Height()
+			t, err := mk(4, transferScript(4, 1, 1), func(t *transaction.Transaction) { t.ValidUntilBlock = tip + 4 })
+			if err != nil {
+				return nil, nil, err
+			}
+			bn, err := one(committee(n, "setMaxValidUntilBlockIncrement", int64(4)))
+			return t, bn, err
+		}},
+		{"contract-signer-destroyed-in-block-N", func(c *stateCtx, n *chainx.Node, mk phMaker, w *chainx.World) (*transaction.Transaction, []*transaction.Transaction, error) {
+			if !c.cv.Contracts[w.UB.Hash] {
+				return nil, nil, fmt.Errorf("UB not deployed")
+			}
+			t := c.contractSignedTx(n.Height(), w.UB.Hash, 0xC0710001)
+			d, err := w.URun(1, w.UB, []any{[]any{chainx.OpCall, nativehashes.ContractManagement.BytesBE(), "destroy", 15, []any{}}})
+			if err != nil {
+				return nil, nil, err
+			}
+			return t, []*transaction.Transaction{retx(d)}, nil
+		}},
+		{"contract-signer-unaffected(still-valid)", func(c *stateCtx, n *chainx.Node, mk phMaker, w *chainx.World) (*transaction.Transaction, []*transaction.Transaction, error) {
+			if !c.cv.Contracts[w.UB.Hash] {
+				return nil, nil, fmt.Errorf("UB not deployed")
+			}
+			t := c.contractSignedTx(n.Height(), w.UB.Hash, 0xC0710002)
+			bn, err := filler(mk)
+			return t, bn, err
+		}},
 	}
+}
+
+// contractSignedTx is a transaction of account 4 co-signed by a deployed
+// contract (empty witness: the contract's verify method is called).
+func (c *stateCtx) contractSignedTx(tip uint32, contract util.Uint160, nonce uint32) *transaction.Transaction {
+	t := transaction.New(transferScript(4, 1, 1), 1*gas)
+	t.Nonce, t.ValidUntilBlock, t.NetworkFee = nonce, tip+6, gas/5
+	t.Signers = []transaction.Signer{{Account: chainx.Acc(4).ScriptHash(), Scopes: transaction.CalledByEntry}, {Account: contract, Scopes: transaction.None}}
+	t.Scripts = []transaction.Witness{{InvocationScript: make([]byte, 66), VerificationScript: chainx.Acc(4).Contract.Script}, {InvocationScript: []byte{}, VerificationScript: []byte{}}}
+	t = retx(t)
+	t.Scripts[0].InvocationScript = sigPush(chainx.Acc(4).PrivateKey().SignHashable(c.magic, t))
+	return retx(t)
 }
 
 // buildPoolHist prepares the histories of this state; a history that cannot
@@ -241,7 +339,7 @@ func (c *stateCtx) buildPoolHist() {
 	}
 	for si, sp := range phSpecs() {
 		func() {
-			n, _, err := c.sc.RefNode(c.h)
+			n, w, err := c.sc.RefNode(c.h)
 			if err != nil {
 				return
 			}
@@ -263,7 +361,7 @@ func (c *stateCtx) buildPoolHist() {
 				}
 				return retx(t), nil
 			}
-			t, blockN, err := sp.make(c, n, mk)
+			t, blockN, err := sp.make(c, n, mk, w)
 			if err != nil {
 				return
 			}
